@@ -203,6 +203,72 @@ def poly1305_wrap(chk):
     chk.floor('Poly1305 finalisations', n, 4)
 
 
+def aes_key_expansion_rule(chk):
+    """FIPS 197 section 5.2 (KeyExpansion): Nr = 10 / 12 / 14 for 16 / 24 / 32-byte keys; a word whose index is a multiple of Nk gets
+    SubWord(RotWord(temp)) xor Rcon; the extra SubWord at i mod Nk = 4 applies *only* when Nk > 6, i.e. to 256-bit keys.  The three
+    portable key schedules (br_aes_keysched, br_aes_ct_keysched, br_aes_ct64_keysched) carry the same loop; each is compared with the
+    standard: the key-length switch yields the round numbers, the Nk test holds for Nk = 8 and fails for 4 and 6, and it is
+    combined with j == 4."""
+    from .. import wmw
+    from ..sym import var_names
+    R = 'aes-key-expansion-rule'
+    P = wmw.program()
+    n = 0
+    for fn, f in (('br_aes_keysched', 'aes_common.c'), ('br_aes_ct_keysched', 'aes_ct.c'), ('br_aes_ct64_keysched', 'aes_ct64.c')):
+        Fs = [F for (un, g), F in P.static.items() if g == fn and F.file().endswith(f)]
+        if not Fs:
+            raise AnalysisBroken('%s vanished' % fn)
+        F = Fs[0]
+        names = var_names(F)
+
+        def nm(o):
+            return names.get((o['k'], o['v'])) if o['k'] in ('i', 'a') else None
+        # rounds table
+        sw = [i for i in F.insts.values() if i['op'] == 'switch' and nm(i['ops'][0]) == 'key_len']
+        ph = [i for i in F.insts.values() if i['op'] == 'phi' and nm({'k': 'i', 'v': i['id']}) == 'num_rounds']
+        n += 1
+        inst = '%s: 16 / 24 / 32-byte keys give 10 / 12 / 14 rounds' % fn
+        if len(sw) != 1 or len(ph) != 1:
+            raise AnalysisBroken('%s: key-length switch / num_rounds phi not found (%d / %d)' % (fn, len(sw), len(ph)))
+        cases = {sw[0]['ops'][k]['v']: sw[0]['ops'][k + 1]['v'] for k in range(2, len(sw[0]['ops']), 2)}
+        byblock = {b: o.get('v') for b, o in zip(ph[0]['inb'], ph[0]['ops']) if o['k'] == 'c'}
+        got = {kl: byblock.get(bb) for kl, bb in cases.items()}
+        if got == {16: 10, 24: 12, 32: 14}:
+            chk.ok(R, inst, F.where(sw[0]))
+        else:
+            chk.violation(R, inst, F.where(sw[0]), 'key length -> rounds is %s' % got, key='%s %s rounds' % (R, fn))
+        # the Nk test
+        cmps = [i for i in F.insts.values() if i['op'] == 'icmp' and nm(i['ops'][0]) == 'nk' and i['ops'][1]['k'] == 'c']
+        n += 1
+        inst = '%s: the additional SubWord applies to 256-bit keys only (Nk > 6) and at j = 4' % fn
+        if 'nk' not in names.values() or 'j' not in names.values():
+            raise AnalysisBroken('%s: variables nk / j not found in the debug information (renamed?)' % fn)
+        if len(cmps) != 1:
+            chk.violation(R, inst, F.where(), 'expected one comparison of nk with a constant, found %d' % len(cmps), key='%s %s nk' % (R, fn))
+            continue
+        c = cmps[0]
+        k = c['ops'][1]['v']
+        rel = {'sgt': lambda a: a > k, 'sge': lambda a: a >= k, 'ugt': lambda a: a > k, 'uge': lambda a: a >= k, 'eq': lambda a: a == k,
+               'ne': lambda a: a != k, 'slt': lambda a: a < k, 'sle': lambda a: a <= k, 'ult': lambda a: a < k, 'ule': lambda a: a <= k}[c['pred']]
+        holds = sorted(a for a in (4, 6, 8) if rel(a))
+        # the branch taken when the test holds leads to the `j == 4` test
+        tb = [i for i in F.insts.values() if i['op'] == 'br' and len(i['ops']) == 3 and i['ops'][0] == {'k': 'i', 'v': c['id']}]
+        j4 = None
+        if tb:
+            nxt = tb[0]['ops'][2]['v']
+            blk = next(b for b in F.blocks if b['id'] == nxt)
+            j4 = next((i for i in blk['insts'] if i['op'] == 'icmp' and i['pred'] == 'eq' and nm(i['ops'][0]) == 'j' and i['ops'][1].get('v') == 4), None)
+        if holds != [8]:
+            chk.violation(R, inst, F.where(c), 'the test `nk %s %d` holds for Nk in %s: %s' % (c['pred'], k, holds,
+                          '192-bit keys get the extra SubWord and expand to a different schedule than every other AES' if 6 in holds else 'the schedule is not FIPS 197\'s'),
+                          key='%s %s nk' % (R, fn))
+        elif j4 is None:
+            chk.violation(R, inst, F.where(c), 'the Nk test is not followed by `j == 4`', key='%s %s j4' % (R, fn))
+        else:
+            chk.ok(R, inst, F.where(c))
+    chk.floor('aes key expansion instances', n, 6)
+
+
 def des_ede_schedule(chk):
     """Triple-DES is encrypt-decrypt-encrypt (ANSI X9.52 / SP 800-67): the middle sub-key schedule is the reversed one; a 16-byte key is
     K1 | K2 | K1.  Decided by partial evaluation of both key schedules with key_len pinned to 8, 16, 24: the sequence of
@@ -645,6 +711,7 @@ def run(tier):
     poly1305_block_decoding(chk)
     poly1305_ctmulq_final_carries(chk)
     des_ede_schedule(chk)
+    aes_key_expansion_rule(chk)
     ghash_pclmul_tail(chk)
     empty_chunk_is_identity(chk)
     x86ni_counter_lanes(chk)
